@@ -12,10 +12,10 @@ var confirmedCounts = map[string]map[string][2]int{ // rule -> prop -> {default,
 	"R3":  {"C11": {24, 24}},
 	"R4":  {"C03": {11, 11}, "C11": {11, 11}},
 	"R5":  {"C11": {9, 11}},
-	"R6":  {"C04": {9, 9}, "C16": {0, 30}, "C17": {34, 34}, "C18": {25, 50}, "C19": {25, 80}, "C20": {9, 9}},
+	"R6":  {"C04": {9, 9}, "C16": {0, 32}, "C17": {34, 34}, "C18": {25, 50}, "C19": {25, 82}, "C20": {9, 9}},
 	"R7":  {"C17": {26, 29}, "C19": {22, 38}},
 	"R8":  {"C18": {19, 23}},
-	"R9":  {"C20": {15, 15}},
+	"R9":  {"C20": {16, 16}},
 	"R10": {"C02": {62, 71}, "C05": {62, 71}, "C10": {62, 71}},
 	"R11": {"C07": {10, 10}, "C08": {10, 10}},
 	"R12": {"C06": {16, 16}, "C07": {25, 27}, "C12": {10, 10}, "C13": {10, 10}},
@@ -31,8 +31,8 @@ var confirmedCounts = map[string]map[string][2]int{ // rule -> prop -> {default,
 	"R22": {"C16": {0, 19}},
 	"R23": {"C14": {0, 20}, "C16": {0, 20}},
 	"R24": {"C05": {4, 4}, "C06": {5, 5}, "C13": {2, 2}, "C15": {1, 3}},
-	"R25": {"C05": {10, 10}, "C06": {23, 23}, "C09": {17, 17}, "C13": {10, 10}, "C15": {1, 6}},
-	"R26": {"C02": {1, 1}, "C03": {4, 4}, "C04": {3, 3}, "C05": {6, 6}, "C06": {5, 5}, "C13": {2, 2}},
+	"R25": {"C05": {10, 10}, "C06": {24, 24}, "C09": {17, 17}, "C13": {10, 10}, "C15": {1, 6}},
+	"R26": {"C02": {1, 1}, "C03": {4, 4}, "C04": {3, 3}, "C05": {7, 7}, "C06": {6, 6}, "C13": {2, 2}},
 	"R27": {"C02": {6, 6}, "C03": {2, 2}, "C04": {3, 3}, "C05": {1, 1}, "C09": {12, 12}},
 	"R28": {"C01": {3, 3}, "C06": {15, 15}, "C08": {4, 4}, "C09": {5, 5}, "C13": {6, 6}},
 	"R29": {"C01": {7, 7}, "C02": {2, 2}, "C06": {7, 7}},
